@@ -140,8 +140,8 @@ class C17(core.Check):
         "LinearInterpolatedCurve (on one segment of the polyline, through the knots) and ParametricSurfaceClamp on a "
         "plane / bilinear patch for all parameters; translation/symmetry/rotation links keep their relation for leader "
         "moves of any size, the rotation relation determines the follower uniquely and commutes with rotations about "
-        "the axis; update is pure. Circle / spline / user-function curves, curved surfaces, the knot parameters of an "
-        "interpolated curve (square roots: observed, checked by the oracle against chord lengths) and the accuracy "
+        "the axis; update is pure; CircleCurve clamps at rationally parametrised angles and chord-length knot parameters "
+        "(square-root witnesses) are in the model. Spline / user-function curves, curved surfaces and the accuracy "
         "of the scipy minimiser are checked by the oracle only."
     )
 
@@ -201,6 +201,8 @@ class C17(core.Check):
                 w = rng.choice([1, 2, 3])  # position at angle 2*atan2(1, w): between 0.64 and 1.57 rad
                 base = add(o, mat_vec(quat_matrix(w, fr.D(0, 0, 1)), fr.D(2, 0, 0)))
                 params = [str(Fr(rng.randint(5, 55), 10)) for _ in range(3)]
+                # rationally parametrised angles 2·atan2(|mu n|, w) in (0, 2 pi): compared with the model exactly
+                curve["turns"] = [[str(rng.randint(-3, 5)), str(Fr(rng.choice([1, 2, 3, 5]), 2))] for _ in range(2)]
             else:
                 pts = [fr.P(x, Fr(x * x, 8) + Fr(rng.randint(-1, 1), 8), Fr(x, 4)) for x in range(0, 6)]
                 curve = {"c": ck, "pts": [S(p) for p in pts]}
@@ -516,6 +518,11 @@ class C17(core.Check):
                 out["used_params"].append(t)
                 clamp.update_params([t])
                 out["positions"].append(fl(clamp.position))
+            out["turn_positions"] = []
+            for w_, mu_ in case["curve"].get("turns", []):
+                t = quat_theta(w_, mul(Fr(mu_), V(case["curve"]["n"])))
+                clamp.update_params([t])
+                out["turn_positions"].append(fl(clamp.position))
             # dense scan of the curve: no sampled point may be much closer to the creation position than the reported one
             dense = [np.asarray(curve.get_point(lo + (hi - lo) * i / 2000)) for i in range(2001)]
             out["scan_min"] = float(min(np.linalg.norm(np.array(FV(case["pos"])) - q) for q in dense))
@@ -704,9 +711,16 @@ class C17(core.Check):
             reqs = [f"c17.curvelineinit {p1} {p2} {r(lo)} {r(hi)} {enc_v(FV(case['pos']))}"]
             reqs += [f"c17.curveline {p1} {p2} {r(t)}" for t in impl["used_params"]]
             return reqs
+        if k == "curve" and case["curve"]["c"] == "circle" and case["curve"].get("turns"):
+            c = case["curve"]
+            return [f"c17.curvecircle {enc_v(FV(c['o']))} {enc_v(FV(c['rim']))} {enc_v(FV(c['n']))} {r(Fr(w_))} {r(Fr(mu_))}" for w_, mu_ in c["turns"]]
         if k == "curve" and case["curve"]["c"] == "linear":
-            knots = " ".join(f"{r(kn)} {enc_v(pt)}" for kn, pt in zip(impl["knots"], impl["knot_points"]))
-            return [f"c17.poly {r(t)} {knots}" for t in [impl["param0"]] + impl["used_params"]]
+            # the model computes the chord-length parameters itself from the GIVEN points; the segment lengths enter
+            # as square-root witnesses the harness computes from the case (not read off the library)
+            pts = [FV(q) for q in case["curve"]["pts"]]
+            lens = [math.sqrt(sum((b - a) ** 2 for a, b in zip(p0, p1))) for p0, p1 in zip(pts, pts[1:])]
+            tail = " ".join(enc_v(q) for q in pts) + " " + " ".join(r(ln) for ln in lens)
+            return [f"c17.chord {r(t)} {len(pts)} {tail}" for t in [impl["param0"]] + impl["used_params"]]
         if k == "surface" and surface_exact(case["surface"], case["frame"])[0]:
             kind, pts = surface_exact(case["surface"], case["frame"])
             op = "c17.surfplane" if kind == "plane" else "c17.surfbilinear"
@@ -771,9 +785,20 @@ class C17(core.Check):
                 w = chk(a, p, POS_TOL, f"CurveClamp(LineCurve) at t={t}")
                 if w:
                     return w
+        elif k == "curve" and case["curve"]["c"] == "circle" and model:
+            for tn, a, p in zip(case["curve"]["turns"], model, impl["turn_positions"]):
+                w = chk(a, p, 1e-8, f"CurveClamp(CircleCurve) turned by quaternion {tn}")
+                if w:
+                    return w
         elif k == "curve" and case["curve"]["c"] == "linear" and model:
             for t, a, p in zip([impl["param0"]] + impl["used_params"], model, [impl["initial"]] + impl["positions"]):
-                w = chk(a, p, POS_TOL, f"CurveClamp(LinearInterpolatedCurve) at t={t}")
+                parts = a.split()
+                if len(parts) != 2 or not parts[0].startswith("["):
+                    return f"CurveClamp(LinearInterpolatedCurve): model answers {a[:80]}"
+                mk = [float(core.parse_rat(x)) for x in parts[0].strip("[]").split(",")]
+                if len(mk) != len(impl["knots"]) or any(abs(x - y) > 1e-12 for x, y in zip(mk, impl["knots"])):
+                    return f"LinearInterpolatedCurve parameters: model (chord length) {mk}, implementation {impl['knots']}"
+                w = chk(parts[1], p, POS_TOL, f"CurveClamp(LinearInterpolatedCurve) at t={t}")
                 if w:
                     return w
         elif k == "surface" and model:
